@@ -355,35 +355,40 @@ func ruleR01a(c *Ctx) {
 	wa := c.Fn(pkgVM, "Machine.withdrawAlways")
 	_, tickFD := c.FuncDecl(pkgVM, "Machine.tick")
 	if wa != nil && tickFD != nil {
-		p := c.Pkg(pkgVM)
-		okVM, seen := true, false
-		for _, sw := range switchesIn(tickFD.Body) {
-			for _, cl := range clausesOf(sw.Body) {
-				isTA := false
-				for _, e := range cl.Exprs {
-					if k := constObj(p, e); k != nil && k.Name() == "OP_TAKE_ALWAYS" {
-						isTA = true
-					}
+		// every call of withdrawAlways — directly in tick, or in a method of the machine that tick calls for the opcode
+		// (`m.opTakeAlways()`) — is reached from the OP_TAKE_ALWAYS clause only
+		lo, hi := opClauseRange(c, "OP_TAKE_ALWAYS")
+		okVM, seen := lo.IsValid(), false
+		var onlyFromClause func(fn *ssa.Function, depth int) bool
+		onlyFromClause = func(fn *ssa.Function, depth int) bool {
+			n := 0
+			for _, ci := range c.CallersOf(fn) {
+				caller := ci.Parent()
+				if caller == nil || (caller.Synthetic != "" && !strings.HasPrefix(caller.Synthetic, "instance of")) {
+					continue
 				}
-				calls := false
-				for _, st := range cl.Body {
-					if strings.Contains(nodeText(c, st), "withdrawAlways(") {
-						calls = true
-					}
+				if strings.HasSuffix(c.Fset.Position(ci.Pos()).Filename, "_test.go") {
+					continue
 				}
-				if calls {
-					seen = true
-					if !isTA {
-						okVM = false
+				n++
+				switch {
+				case origName(caller) == "tick" && fnPkgPath(origin(caller)) == pkgVM:
+					if ci.Pos() < lo || ci.Pos() > hi {
+						return false
 					}
+				case depth < 2 && fnPkgPath(origin(caller)) == pkgVM && !token.IsExported(origName(caller)) && caller.Parent() == nil:
+					if !onlyFromClause(caller, depth+1) {
+						return false
+					}
+				default:
+					return false
 				}
 			}
+			return n > 0
 		}
-		callers := c.CallersOf(wa)
-		for _, ci := range callers {
-			if origName(ci.Parent()) != "tick" {
-				okVM = false
-			}
+		if okVM {
+			okVM = onlyFromClause(wa, 0)
+			seen = okVM || len(c.CallersOf(wa)) > 0
 		}
 		c.check(okVM && seen, rule, "vm:withdrawAlways-only-for-OP_TAKE_ALWAYS", wa.Pos(), "withdrawAlways is reached only from the OP_TAKE_ALWAYS case of tick", "withdrawAlways (unconditional debit) is called outside the OP_TAKE_ALWAYS case")
 	}
